@@ -456,6 +456,14 @@ class Sim:
         self._write(self.post_state, self.model.phys(r), sym)
 
     # -- describing symbols ------------------------------------------------------
+    def uid(self, x):
+        """Identity of an instruction inside symbols: distinct objects never share one (texts may coincide)."""
+        k = self.rec.pre_index.get(id(x.ins))
+        if k is not None:
+            return "#%d before allocation: %s" % (k, x.text)
+        k = self.rec.post_index.get(id(x.ins))
+        return "spill code #%d after allocation: %s" % (k, x.text)
+
     def describe(self, sym):
         k = sym[0]
         if k == "init":
@@ -482,10 +490,11 @@ class Sim:
         if x.plain_move:
             self.pre_write(x.defs[0], self.pre_get(x.uses[0]))
         else:
+            u = self.uid(x)
             for r in x.clobbers:
-                self.pre_write(r, ("clob", x.text, n, _rname(r)))
+                self.pre_write(r, ("clob", u, n, _rname(r)))
             for j, r in enumerate(x.defs):
-                self.pre_write(r, ("def", x.text, n, j))
+                self.pre_write(r, ("def", u, n, j))
 
     def exec_both(self, xp, xq, where):
         n = self.occ[id(xp.ins)]
@@ -513,12 +522,13 @@ class Sim:
             self.pre_write(xp.defs[0], ins_a[0])
             self.post_write(xq.defs[0], ins_b[0])
             return
+        u = self.uid(xp)
         for r in xp.clobbers:
-            g = ("clob", xp.text, n, _rname(r))
+            g = ("clob", u, n, _rname(r))
             self.pre_write(r, g)
             self.post_write(r, g)
         for j in range(len(xp.defs)):
-            s = ("def", xp.text, n, j)
+            s = ("def", u, n, j)
             self.pre_write(xp.defs[j], s)
             self.post_write(xq.defs[j], s)
 
@@ -553,13 +563,14 @@ class Sim:
             self.post_write(x.defs[0], inputs[0])
             self.last_out[(id(x.ins), 0)] = inputs[0]
             return
+        u = self.uid(x)
         for r in x.clobbers:
-            self.post_write(r, ("clob", x.text, n, _rname(r)))
+            self.post_write(r, ("clob", u, n, _rname(r)))
         for j, r in enumerate(x.defs):
             if role["kind"] == "load" and role["root"] == j:
                 s = self.slots.get(role["slot"], ("noslot", "%d(fp),%d bytes" % role["slot"]))
             else:
-                s = ("def", "spill:" + x.text, n, j)
+                s = ("def", u, n, j)
             self.post_write(r, s)
             self.last_out[(id(x.ins), j)] = s
 
